@@ -4,6 +4,7 @@ package main
 import (
 	"verif/vlib"
 
+	_ "verif/checks/cachettl"
 	_ "verif/checks/cfgscope"
 	_ "verif/checks/histfile"
 	_ "verif/checks/jobs"
